@@ -338,7 +338,19 @@ def run_statements_coq(rp, tier, rng):
         conv = S.convert(s, rd.log)
         if conv is None:
             continue
-        ref.append(dict(id="sref:%d" % i, s=s, words=words, sql=" ".join(words), term=conv[0], srho=conv[1], want=pres.ast(s), feats=G.features(s)))
+        ref.append(dict(id="sref:%d" % i, s=s, words=words, sql=" ".join(words), term=conv[0], srho=conv[1], want=pres.ast(s), feats=G.features(s), fam="random"))
+    # targeted reference statements: MERGE (kind x action table, clause pairs, aliases), GROUPING SETS shapes, the FOR clause combinations
+    unconverted = []
+    for fam, mk in S.FAMILIES:
+        for i, s in enumerate(mk(rng, tier)):
+            rd = S.LoggingRenderer(rng, rng.choice([0.0, 0.0, 0.1, 0.25]))
+            words = rd.S(s)
+            conv = S.convert(s, rd.log)
+            if conv is None:
+                unconverted.append(dict(id="sref:%s:%d" % (fam, i), sql=" ".join(words)))
+                continue
+            ref.append(dict(id="sref:%s:%d" % (fam, i), s=s, words=words, sql=" ".join(words), term=conv[0], srho=conv[1], want=pres.ast(s),
+                            feats=G.features(s), fam=fam))
     wide_gen = G.StmtGen(rng)
     wide = []
     for i in range(200 if quick else 3000):
@@ -350,7 +362,7 @@ def run_statements_coq(rp, tier, rng):
         wide.append(dict(id="swide:%d" % i, words=words, sql=" ".join(words)))
     other = []
     src = ref + wide
-    for i in range(330 if quick else 6000):
+    for i in range(420 if quick else 7000):
         c = src[rng.randrange(len(src))]
         w = list(c["words"])
         if len(w) > 60:
@@ -391,11 +403,18 @@ def run_statements_coq(rp, tier, rng):
     ref_rejected = [c for c in refu if not c["out"]["accepted"]]
     rp.cov["stmt_coq_reference_statements"] = len(refu)
     rp.cov["stmt_coq_reference_features"] = dict(sorted(_count(f for c in refu for f in c["feats"]).items()))
+    rp.cov["stmt_coq_reference_families"] = dict(sorted(_count(c["fam"] for c in refu).items()))
+    fam = lambda f: [c["s"] for c in refu if c["fam"] == f]
+    rp.cov["stmt_coq_merge_clause_pairs"] = len({tuple((w["type"], w["action"]["type"]) for w in s["whens"]) for s in fam("merge") if len(s["whens"]) == 2})
+    rp.cov["stmt_coq_merge_alias_forms"] = len({(bool(s["talias"]), s["tas"] and bool(s["talias"]), bool(s["salias"]), s["sas"] and bool(s["salias"]), s["into"]) for s in fam("merge")})
+    rp.cov["stmt_coq_grouping_sets_shapes"] = len({tuple("bare" if isinstance(st, tuple) else len(st) for st in g[1])
+                                                   for s in fam("grouping_sets") for g in s["group_by"] if g[0] == "sets"})
+    rp.cov["stmt_coq_for_combinations"] = len({(f["lock"], len(f["tables"]), f["wait"]) for s in fam("for") for f in [s.get("for_")] if f})
     rp.cov["stmt_corr_cases"] = len(items)
     rp.cov["stmt_corr_agree_accept"] = sum(1 for c, r in zip(items, res) if r == 0 and c["out"]["accepted"])
     rp.cov["stmt_corr_agree_reject"] = sum(1 for c, r in zip(items, res) if r == 0 and not c["out"]["accepted"])
     rp.cov["stmt_corr_unmodelled_branch"] = sum(1 for r in res if r == 2)
-    return dict(ref=refu, gen_bad=gen_bad, bad=bad, ref_unmodelled=ref_unmodelled, ref_rejected=ref_rejected, n=len(items))
+    return dict(ref=refu, gen_bad=gen_bad, bad=bad, ref_unmodelled=ref_unmodelled, ref_rejected=ref_rejected, n=len(items), unconverted=unconverted)
 
 
 def _count(it):
@@ -503,6 +522,10 @@ def run(tier):
     rp.obligation("generator = Spec.RefStmt.render_stmt / ast_of_stmt on reference statements", not sc["gen_bad"], "%d" % len(sc["gen_bad"]))
     rp.obligation("reference statements of Spec/RefStmt.v are inside the model (no unmodelled branch) and accepted by the real parser",
                   not sc["ref_unmodelled"] and not sc["ref_rejected"], "%d unmodelled, %d rejected" % (len(sc["ref_unmodelled"]), len(sc["ref_rejected"])))
+    rp.obligation("targeted reference statements (MERGE, GROUPING SETS, FOR) are terms of Spec/RefStmt.v", not sc["unconverted"], "%d not convertible" % len(sc["unconverted"]))
+    for c in sc["unconverted"][:2]:
+        rp.violation({"kind": "correspondence", "broken": "targeted reference statement has no Spec/RefStmt.v term (lib/c03s.py)", "sql": c["sql"]},
+                     "sgen_" + safe_id(c["id"]), no_input=True)
     stmt_oracle_ids = {c["sql"] for c in sviol}
     for c, r in sc["bad"][:5]:
         o = c["out"]
